@@ -144,7 +144,9 @@ func cmdCheckAll(args []string) int {
 						c.Undecided("E0/panic", "analyser[amd64]", "-", fmt.Sprintf("analyser panic: %v\n%s", r, firstLines(string(debug.Stack()), 14)))
 					}
 				}()
+				walkerTruncations = nil
 				registry[id](c)
+				noteTruncations(c)
 			}()
 		}
 		if st := c.Finish(); st > status {
@@ -168,8 +170,21 @@ func runOne(id, tier, arch string, seed int, f checkFn) (c *Check) {
 			c.Undecided("E0/panic", "analyser["+arch+"]", "-", fmt.Sprintf("analyser panic: %v\n%s", r, firstLines(string(debug.Stack()), 14)))
 		}
 	}()
+	walkerTruncations = nil
 	f(c)
+	noteTruncations(c)
 	return c
+}
+
+func noteTruncations(c *Check) {
+	seen := map[string]bool{}
+	for _, fn := range walkerTruncations {
+		if !seen[fn] {
+			seen[fn] = true
+			c.Undecided("E0/walker-limit", fn, "-", "the path-by-path exploration of "+fn+" hit its path/step limit: tables extracted from it are incomplete")
+		}
+	}
+	walkerTruncations = nil
 }
 
 func firstLines(s string, n int) string {
